@@ -136,3 +136,34 @@ func VH_C13_AcceptsEncoderOutput() {
 	vh.Assert(c13Verdict(w.B), "Deterministic accepts what the encoder emits in its subset")
 	vh.Assert(refDetSeq(w.B), "and so does the independent recogniser")
 }
+
+// VH_C13_MapKeyOrder: a two-entry map `a2 k1 00 k2 00` whose keys are two complete items of 1..2 (thorough 1..3) fully symbolic
+// bytes each (any major type the package handles, so keys of DIFFERENT types and DIFFERENT encoded lengths meet:
+// 0x18 0x18 against 0x40, an array [1,2] against [256], ...): accepted iff the independent recogniser accepts,
+// i.e. iff both keys are deterministic items and k1 < k2 in BYTEWISE order of their encodings (RFC 8949 4.2.1),
+// not length-first order (RFC 7049 3.9); equal keys are duplicates.
+func VH_C13_MapKeyOrder() {
+	vh.MustReach("accept", "reject-order", "reject-dup")
+	l1, l2 := 1+vh.Choose(2+vh.Tier()), 1+vh.Choose(2+vh.Tier())
+	k1, k2 := vh.Bytes("k1", l1), vh.Bytes("k2", l2)
+	n1, ok1 := refDetItem(k1)
+	n2, ok2 := refDetItem(k2)
+	vh.Assume(ok1 && ok2 && n1 == l1 && n2 == l2) // each key is exactly one complete deterministic item
+	in := []byte{0xa2}
+	in = append(in, k1...)
+	in = append(in, 0x00)
+	in = append(in, k2...)
+	in = append(in, 0x00)
+	got := c13Verdict(in)
+	want := refDetSeq(in)
+	vh.Assert(got == want, "map keys must ascend in bytewise order of their encodings")
+	vh.Assert(want == refLess(k1, k2), "reference sanity: a two-entry map of deterministic keys is valid iff k1 < k2 bytewise")
+	switch {
+	case got:
+		vh.Reach("accept")
+	case string(k1) == string(k2):
+		vh.Reach("reject-dup")
+	default:
+		vh.Reach("reject-order")
+	}
+}
